@@ -5,6 +5,7 @@ import SamVerif.Lemmas.TailStmt
 import SamVerif.Lemmas.CpeProg
 import SamVerif.Model.VecRt
 import SamVerif.Model.DataSeg
+import SamVerif.Model.Launcher
 /-!
 # C01 — compiled code behaves as the source semantics prescribe: property theorems
 
@@ -1318,5 +1319,21 @@ theorem assemble_printBytes (bs : List Nat) (h : ∀ b ∈ bs, b < 256) :
 -- "é" = c3 a9: two escapes, two bytes back (the seeded fault C01f printed the Latin-1 characters raw: four bytes)
 example : printBytes [99, 0xc3, 0xa9] = ['c', '\\', 'c', '3', '\\', 'a', '9'] := by decide
 example : assemble ['c', 'Ã', '©'] = some [99, 0xc3, 0x83, 0xc2, 0xa9] := by decide
+
+end SamVerif.C01
+
+/-! ## K7 — launchers of a multi-entry project (`compile_sources`) -/
+namespace SamVerif.C01
+open SamVerif.Launcher
+
+/-- **The launcher of an entry point is a function of that entry alone**: whatever entry points
+come before or after it in the project, launcher number `pre.length` calls exactly the encoded
+`Main.main` of its own module (seeded fault C01g let the name buffer accumulate the earlier ones). -/
+theorem launcher_independent (pre post : List Mod) (m : Mod) :
+    (launchers (pre ++ m :: post))[pre.length]? = some (m, mainName m) := by
+  simp [launchers]
+
+example : String.ofList (mainName ["Report".toList]) = "_Report_Main$main" := by decide
+example : String.ofList (mainName ["audit".toList, "Log-2".toList]) = "_audit$Log_2_Main$main" := by decide
 
 end SamVerif.C01
